@@ -53,6 +53,19 @@ CLAIMS = {
              "(as in the C API contract) and not modelled.",
         technique="Lean 4 proof (functional laws, programs equal to error leaves) + exhaustive argument-class matrix replay",
         ref="DESIGN.md §8 C17"),
+    "C18": dict(
+        text="Translator + Lean: tools/abi_extract.py regenerates lean/Pathrs/Generated/AbiData.lean from the current Rust C-API "
+             "sources (no_mangle extern fns, repr attributes, open_enum discriminants), include/pathrs.h, cbindgen.toml, every "
+             "C.pathrs_* call site of the Go binding (with its casts) and every libpathrs_so.* use plus the cdef preamble of the "
+             "Python binding; `check tables = true` is then re-proved by `decide` (Props/C18.lean) and lifted by lemmas to: same "
+             "symbol set and per-argument ABI classes, same enum values, same struct layout, every bound symbol declared with "
+             "the assumed arity/classes, integer typedefs of the right width. Thorough tier additionally builds the staticlib from "
+             "the working tree, compares `nm` with the header and compiles+links a C unit with _Static_asserts on sizes, offsets, "
+             "enum values against it.",
+        note="The translator (regex-based parser of the four source languages) is trusted; a parse failure is reported as a broken "
+             "tie. cbindgen and go are not installed here, so the header is not regenerated and the Go binding is not compiled.",
+        technique="translator-regenerated Lean tables decided by `decide` (kernel-checked) + symbol-table/static-assert cross-check",
+        ref="DESIGN.md §8 C18"),
 }
 
 PENDING = "check under construction in this session (design in DESIGN.md §8); will be claimed when its theorems and suite are committed"
